@@ -261,6 +261,62 @@ def mon_C02(t):
     return out
 
 
+def mon_C03(t):
+    """Every disappearance or alteration of a stored key has a legitimate cause: its own Delete command, a sweep at which its
+    own expiry has passed, an eviction by a put that did not fit the free space, an upsert of that key, or shutdown."""
+    out = []
+    mx = t.cfg["max"]
+    for i, r in enumerate(t.recs):
+        if r["skipped"]:
+            continue
+        p = r["ev"].split()
+        sb, sa = t.store_before(i), t.store_after(i)
+        if sb == sa:
+            continue
+        now = t.now_before[i]
+        if (p[0] == "call" and p[2] == "shutdown") or (p[0] == "run" and r["snap"]["shut"] and not sb == {} and sa == {}):
+            continue
+        for k, ent in sb.items():
+            new = sa.get(k)
+            if new == ent:
+                continue
+            cause = None
+            if p[0] == "call" and p[2] in ("upsert", "delete") and int(p[3]) == k and new is not None:
+                cause = "own call"
+            if p[0] == "run" and new is not None:
+                call = t.pending_call(i)
+                if call and call[0] in ("upsert", "delete") and int(call[1]) == k:
+                    cause = "own call"
+            if p[0] == "worker" and i in t.executed and t.executed[i] in t.ack_call:
+                a = t.executed[i]
+                ci, call = t.ack_call[a]
+                if call[0] == "delete" and int(call[1]) == k and new is None:
+                    cause = "own delete"
+                elif (call[0].startswith("put") or call[0] == "upsert") and not t.ack_is_update.get(a) and new is None:
+                    # eviction: legitimate only under memory pressure
+                    wts = t.weights_after(i)
+                    kk = key_of_call(call)
+                    w = None
+                    if call[0] in ("put_w", "put_w_ttl"):
+                        w = int(call[3])
+                    elif call[0] == "upsert" and call[3] != "-":
+                        w = int(call[3])
+                    else:
+                        from sched_util import weight_calc
+                        v = int(call[2]) if call[2] != "-" else 0
+                        ttl = (call[0] == "put_ttl") or (call[0] == "upsert" and call[4] != "-")
+                        w = weight_calc(t.cfg["wcalc"], kk, v, ttl)
+                    if w > mx - t.before[i]["used"]:
+                        cause = "eviction under pressure"
+            if p[0] == "sweep" and new is None and ent[3] != -1 and ent[3] < now:
+                cause = "expired"
+            if cause is None:
+                what = "removed" if new is None else "altered to %s" % (new,)
+                out.append(fail(t, i, "spurious-loss", "key %d (value %d, expiry %s) was %s by '%s' without memory pressure, delete or elapsed time-to-live (clock %d)" % (
+                    k, ent[1], ent[3], what, r["ev"], now)))
+    return out
+
+
 def mon_C04(t):
     out = []
     hidden = {}      # key -> index of the delete() call that hid it (until a later put of it is accepted)
@@ -755,7 +811,7 @@ def mon_C17(t):
     return out
 
 
-MONITORS = {"C01": mon_C01, "C02": mon_C02, "C04": mon_C04, "C05": mon_C05, "C06": mon_C06, "C07": mon_C07, "C08": mon_C08,
+MONITORS = {"C01": mon_C01, "C02": mon_C02, "C03": mon_C03, "C04": mon_C04, "C05": mon_C05, "C06": mon_C06, "C07": mon_C07, "C08": mon_C08,
             "C09": mon_C09, "C10": mon_C10, "C11": mon_C11, "C13": mon_C13, "C15": mon_C15, "C16": mon_C16, "C17": mon_C17}
 
 
